@@ -1246,3 +1246,171 @@ type c19Pusher struct {
 func (p *c19Pusher) Push(target string, opts *http.PushOptions) error { p.n++; return nil }
 
 var _ = tls.VersionTLS12
+
+// ---------------------------------------------------------------- c19.replacer
+
+// The Replacer is modelled by slice C20 (lean/Casket/Model/Replacer.lean); this stream reuses
+// its evaluator (c20ReplaceEval, harness/streams/c20.go) and its Lean model, and feeds request
+// text a hostile peer controls — header values, cookies, query strings, paths, Host — to the
+// real NewReplacer(...).Replace over the whole placeholder vocabulary.  The answer is the
+// expanded string (compared with the model) or PANIC / HANG (judged).
+func c19ReplacerGen(g *hx.Gen) {
+	r := g.Rng
+	// one format with every placeholder of the vocabulary, and the request-driven sigils
+	var all strings.Builder
+	for _, k := range c20Keys {
+		if strings.HasPrefix(k, "{") && strings.HasSuffix(k, "}") && !strings.Contains(k, "latency") && !strings.Contains(k, "tls_") && !strings.Contains(k, "when") &&
+			k != "{hostname}" && k != "{request}" && k != "{request_body}" { // those values are outside slice C20's model (c19.explore fuzzes them)
+			all.WriteString(k + "|")
+		}
+	}
+	formats := []string{all.String(),
+		"{>X-Inj}|{>x-inj}|{>Cookie}|{>Referer}|{>}|{~sid}|{~}|{~a}|{?q}|{?}|{?x}|{label1}.{label2}.{label3}.{label9}|{hostonly}|{host}|{port}|{remote}|{server_port}",
+		"{path}|{path_escaped}|{dir}|{file}|{uri}|{uri_escaped}|{query}|{query_escaped}|{fragment}|{rewrite_path}|{rewrite_uri_escaped}",
+		"{>X-Inj}", "{~sid}", "{?q}", "{label2}", "{dir}{file}", "{user}"}
+	hostile := []string{"", "a", "{status}", "{>X-Inj}", "}", "{", `\{`, `\`, "%", "%zz", "%00", "\x7f", "é", "\xff\xfe", "a=b=c", ";;", "=", "\"", "\"a", "a\"b\"",
+		strings.Repeat("A", 300), strings.Repeat("{", 40), strings.Repeat("%7B", 30), "a,b", " lead", "tail ", "\t"}
+	hosts := []string{"example.com", "a.b.c.d.e.f", ".", "..", "x..y", "", ":", ":80", "[::1]", "[::1]:443", "[", "]", "a:b:c", "host:99999999", strings.Repeat("l.", 60) + "z", "xn--é.test", "{host}"}
+	paths := []string{"/", "//", "/a/b.txt", "/a/", "/%2F", "/%zz", "/a%00b", "/..;/x", "/\xff", "*", "/a#f", "/?", "/?&&=&%", "/?q", "/?q=%zz", "/?q=1&q=2", "/." + strings.Repeat("/a", 80), "/{path}", "/a b"}
+	remotes := []string{"192.0.2.1:4000", "[2001:db8::1]:443", "nonsense", "", ":", "1.2.3.4", "[", "a:b:c"}
+	emit := func(format string, host, target, inj, cookie, remote string) {
+		hdr := []string{"Host", host}
+		if inj != "" {
+			hdr = append(hdr, "X-Inj", inj, "Referer", inj)
+		}
+		if cookie != "" {
+			hdr = append(hdr, "Cookie", cookie)
+		}
+		method := "GET"
+		if target == "*" {
+			method = "OPTIONS"
+		}
+		c20Case(g, format, "-", c20Req{raw: c20Raw(method, target, "HTTP/1.1", hdr...), remote: remote, rewrite: "-", reqid: "-", mitm: "-", recorder: "-"})
+	}
+	for _, f := range formats[:3] {
+		for _, h := range hosts {
+			emit(f, h, "/a/b?q=1", "v", "sid=1", remotes[0])
+		}
+		for _, p := range paths {
+			emit(f, "example.com", p, "v", "sid=1", remotes[0])
+		}
+		for _, v := range hostile {
+			clean := strings.Map(func(c rune) rune {
+				if c == '\r' || c == '\n' {
+					return -1
+				}
+				return c
+			}, v)
+			emit(f, "example.com", "/?q="+clean, clean, "sid="+clean+"; "+clean+"; a="+clean, remotes[0])
+		}
+		for _, rm := range remotes {
+			emit(f, "example.com", "/", "v", "", rm)
+		}
+	}
+	n := 700
+	if g.Thorough() {
+		n = 30000
+	}
+	for i := 0; i < n; i++ {
+		q := "/" + hx.Pick(r, []string{"", "a", "a/b.txt", "%7B", "{x}"}) + "?" + hx.Pick(r, []string{"q", "x", ""}) + "=" + hx.Pick(r, hostile)
+		if r.Chance(1, 3) {
+			q = hx.Pick(r, paths)
+		}
+		q = strings.Map(func(c rune) rune {
+			if c == ' ' || c == '\t' || c == '\r' || c == '\n' {
+				return '+'
+			}
+			return c
+		}, q)
+		emit(hx.Pick(r, formats), hx.Pick(r, hosts), q, strings.TrimSpace(hx.Pick(r, hostile)+hx.Pick(r, hostile)),
+			hx.Pick(r, []string{"sid", "a", "", "{b}"})+"="+strings.ReplaceAll(hx.Pick(r, hostile), " ", "")+"; "+hx.Pick(r, hostile), hx.Pick(r, remotes))
+	}
+}
+
+func init() {
+	hx.Register(&hx.Stream{ID: "C19", Name: "c19.replacer", Gen: c19ReplacerGen, Eval: c20ReplaceEval})
+}
+
+// ---------------------------------------------------------------- c19.matches
+
+// httpserver.Path(p).Matches(base): the matcher every path-scoped directive applies to the request
+// path.  It has no index expression of its own (path.Clean, strings.HasPrefix/ToLower do the work);
+// the model is slice C17's Limits.pathMatches.  Hostile paths: NUL and control bytes, dot segments,
+// runs of slashes, very long paths; non-ASCII bytes only in case-sensitive mode (the model folds
+// ASCII case only).
+func init() {
+	hx.Register(&hx.Stream{ID: "C19", Name: "c19.matches", Serial: true,
+		Gen: func(g *hx.Gen) {
+			r := g.Rng
+			bases := []string{"/", "", "/a", "/a/", "/A/b", "a", "//a//", "/a/../b", "/.", "/..", "/a b", "/\x00", "/é"}
+			atoms := []string{"/", "//", "a", "A", "b", ".", "..", "...", "\x00", "\x7f", " ", "%2e", "a/", "/..", "/./", strings.Repeat("/", 50), strings.Repeat("a", 300), strings.Repeat("../", 40)}
+			emit := func(cs bool, p, b string) {
+				ascii := true
+				for i := 0; i < len(p+b); i++ {
+					if (p + b)[i] >= 0x80 {
+						ascii = false
+					}
+				}
+				if !cs && !ascii {
+					return
+				}
+				c := "0"
+				if cs {
+					c = "1"
+				}
+				g.Case(c, hx.HS(p), hx.HS(b))
+			}
+			// every path of up to 4 atoms from a small structural alphabet against every base
+			small := []string{"/", "a", ".", "..", "A"}
+			var rec func(p string, d int)
+			rec = func(p string, d int) {
+				for _, b := range bases {
+					emit(false, p, b)
+					emit(true, p, b)
+				}
+				if d < 4 {
+					for _, a := range small {
+						rec(p+a, d+1)
+					}
+				}
+			}
+			if g.Thorough() {
+				rec("", 0)
+			} else {
+				rec("", 1)
+			}
+			n := 1500
+			if g.Thorough() {
+				n = 60000
+			}
+			for i := 0; i < n; i++ {
+				var p strings.Builder
+				for k := r.Intn(7); k > 0; k-- {
+					p.WriteString(hx.Pick(r, atoms))
+				}
+				path := p.String()
+				if r.Chance(1, 5) {
+					b := []byte(path + "x")
+					b[r.Intn(len(b))] = byte(r.Intn(256))
+					path = string(b)
+				}
+				emit(r.Bool(), path, hx.Pick(r, bases))
+			}
+		},
+		Eval: func(f []string) (string, []string) {
+			prev := httpserver.CaseSensitivePath
+			httpserver.CaseSensitivePath = f[0] == "1"
+			defer func() { httpserver.CaseSensitivePath = prev }()
+			p, b := hx.UnHS(f[1]), hx.UnHS(f[2])
+			out := c19Guard(func() string {
+				if httpserver.Path(p).Matches(b) {
+					return "1"
+				}
+				return "0"
+			})
+			if b == "/" || b == "" {
+				return out, c19Tags(out, "trivial-catch-all")
+			}
+			return out, c19Tags(out, "match="+out)
+		}})
+}
